@@ -10,60 +10,93 @@ class _B(BaseException):
     pass
 
 
-def gen_trace(mod, rng):
-    dbmod = importlib.import_module("trie.utils.db")
-    keys = [bytes(rng.randrange(256) for _ in range(rng.choice([1, 2, 32]))) for _ in range(rng.randint(2, 6))]
-    vals = [bytes(rng.randrange(256) for _ in range(rng.choice([1, 5, 60]))) for _ in range(2)] + [b"", b"\x00"]
-    name = {k: "k" + k.hex() for k in keys}
-    vname = {v: "v" + v.hex() for v in vals}
-    wrapped = {k: rng.choice(vals) for k in keys if rng.random() < 0.5}
-    s = dbmod.ScratchDB(wrapped)
-    cm = None
-    allkeys = keys
-    trace = {"w": [[name[k], vname[v]] for k, v in wrapped.items()], "ev": []}
-    for _ in range(rng.randint(3, 25)):
-        x = rng.random()
-        ev = {"a": "", "k": "", "v": "", "d": False, "kind": ""}
+class Runner:
+    """executes calls on a real ScratchDB and records one event per call"""
+
+    def __init__(self, mod, keys, vals, wrapped):
+        dbmod = importlib.import_module("trie.utils.db")
+        self.keys, self.vals = keys, vals
+        self.name = {k: "k" + k.hex() for k in keys}
+        self.vname = {v: "v" + v.hex() for v in vals}
+        self.wrapped = dict(wrapped)
+        self.s = dbmod.ScratchDB(self.wrapped)
+        self.cm = None
+        self.w0 = [[self.name[k], self.vname[v]] for k, v in wrapped.items()]
+        self.ev = []
+        self.calls = []
+
+    def apply(self, a, k=b"", v=b"", d=False, kind=""):
+        s, name, vname = self.s, self.name, self.vname
+        self.calls.append([a, k.hex(), v.hex(), d, kind])
+        ev = {"a": a, "k": name.get(k, ""), "v": vname.get(v, "") if a == "write" else "", "d": d, "kind": kind}
         swallowed = False
-        if cm is None and x < 0.2:
-            ev.update(a="enter", d=rng.random() < 0.5)
-            cm = s.batch_commit(do_deletes=ev["d"])
-            cm.__enter__()
-        elif cm is not None and x < 0.15:
-            ev.update(a="exit")
-            cm.__exit__(None, None, None)
-            cm = None
-        elif cm is not None and x < 0.3:
-            kind = rng.choice(["Exception", "BaseException"])
-            ev.update(a="raise", kind=kind)
+        if a == "enter":
+            self.cm = s.batch_commit(do_deletes=d)
+            self.cm.__enter__()
+        elif a == "exit":
+            self.cm.__exit__(None, None, None)
+            self.cm = None
+        elif a == "raise":
             e = _E() if kind == "Exception" else _B()
             try:
-                swallowed = bool(cm.__exit__(type(e), e, None))
+                swallowed = bool(self.cm.__exit__(type(e), e, None))
             except (_E, _B):
                 pass
-            cm = None
-        elif x < 0.7:
-            k, v = rng.choice(keys), rng.choice(vals)
-            ev.update(a="write", k=name[k], v=vname[v])
+            self.cm = None
+        elif a == "write":
             s[k] = v
         else:
-            k = rng.choice(keys)
-            ev.update(a="delete", k=name[k])
             del s[k]
         read, has = [], []
-        for k in keys:
+        for kk in self.keys:
             try:
-                got = s[k]
-                read.append([name[k], vname.get(got, "unknown")])
+                got = s[kk]
+                read.append([name[kk], vname.get(got, "unknown")])
             except KeyError:
-                read.append([name[k], "KeyError"])
-            has.append([name[k], k in s])
-        ev["st"] = {"wrapped": [[name[k], vname.get(v, "unknown")] for k, v in wrapped.items()], "read": read, "has": has,
-                    "buffered": len(s.cache), "swallowed": swallowed}
-        trace["ev"].append(ev)
-    trace["keys"] = sorted(name.values())
-    trace["vals"] = sorted(vname.values())
-    return trace
+                read.append([name[kk], "KeyError"])
+            has.append([name[kk], kk in s])
+        ev["st"] = {"wrapped": [[name[kk], vname.get(vv, "unknown")] for kk, vv in self.wrapped.items()], "read": read,
+                    "has": has, "buffered": len(s.cache), "swallowed": swallowed}
+        self.ev.append(ev)
+
+    def trace(self):
+        return {"w": self.w0, "ev": self.ev, "keys": sorted(self.name.values()), "vals": sorted(self.vname.values()),
+                "plan": {"keys": [k.hex() for k in self.keys], "vals": [v.hex() for v in self.vals],
+                         "wrapped": [[k.hex(), v.hex()] for k, v in
+                                     [(bytes.fromhex(a[1:]), bytes.fromhex(b[1:])) for a, b in self.w0]],
+                         "calls": self.calls}}
+
+
+def gen_trace(mod, rng):
+    keys = [bytes(rng.randrange(256) for _ in range(rng.choice([1, 2, 32]))) for _ in range(rng.randint(2, 6))]
+    keys = list(dict.fromkeys(keys))
+    vals = [bytes(rng.randrange(256) for _ in range(rng.choice([1, 5, 60]))) for _ in range(2)] + [b"", b"\x00"]
+    vals = list(dict.fromkeys(vals))
+    wrapped = {k: rng.choice(vals) for k in keys if rng.random() < 0.5}
+    r = Runner(mod, keys, vals, wrapped)
+    for _ in range(rng.randint(3, 25)):
+        x = rng.random()
+        if r.cm is None and x < 0.2:
+            r.apply("enter", d=rng.random() < 0.5)
+        elif r.cm is not None and x < 0.15:
+            r.apply("exit")
+        elif r.cm is not None and x < 0.3:
+            r.apply("raise", kind=rng.choice(["Exception", "BaseException"]))
+        elif x < 0.7:
+            r.apply("write", rng.choice(keys), rng.choice(vals))
+        else:
+            r.apply("delete", rng.choice(keys))
+    return r.trace()
+
+
+def rerun_trace(mod, trace):
+    """re-execute the calls of a recorded trace on the current code (./check --replay)"""
+    plan = trace["plan"]
+    r = Runner(mod, [bytes.fromhex(k) for k in plan["keys"]], [bytes.fromhex(v) for v in plan["vals"]],
+               {bytes.fromhex(k): bytes.fromhex(v) for k, v in plan["wrapped"]})
+    for a, k, v, d, kind in plan["calls"]:
+        r.apply(a, bytes.fromhex(k), bytes.fromhex(v), d, kind)
+    return r.trace()
 
 
 def consts(traces):
